@@ -1470,12 +1470,23 @@ class Real(base.SimpleAsn1Type):
             # far beyond the float range anyway: do not compute a power
             # with millions of digits first (an exponent of 2**32, five
             # octets on the wire, would take minutes)
-            if self._value[0] and self._value[2] > 4096:
+            mantissa, base, exponent = self._value
+
+            if mantissa and exponent > 4096:
                 raise OverflowError('int too large to convert to float')
 
-            return float(
-                self._value[0] * pow(self._value[1], self._value[2])
-            )
+            if exponent < -300:
+                if exponent < -8192:
+                    # far below the smallest float for any mantissa
+                    # that fits a substrate
+                    return mantissa * 0.0
+
+                # the power alone leaves the float range (or its full
+                # precision) long before the value does: one correctly
+                # rounded division instead
+                return mantissa / pow(base, -exponent)
+
+            return float(mantissa * pow(base, exponent))
 
     def __abs__(self):
         return self.clone(abs(float(self)))
